@@ -70,7 +70,122 @@ func (v *FnV) callIsPure(call *ast.CallExpr) bool {
 	if m, ok := stdModels[full]; ok {
 		return m.pure
 	}
-	return false
+	return v.e.declPure(full, 0)
+}
+
+// declPure: a function without a contract whose body, syntactically, writes only
+// its own local variables and calls only pure functions has no heap effect.
+func (e *Engine) declPure(full string, depth int) bool {
+	if p, ok := e.pureMemo[full]; ok {
+		return p
+	}
+	decl, pkg := e.decls[full], e.declPkg[full]
+	if decl == nil || decl.Body == nil || depth > 4 {
+		return false
+	}
+	if e.pureMemo == nil {
+		e.pureMemo = map[string]bool{}
+	}
+	e.pureMemo[full] = false // recursion guard
+	info := pkg.TypesInfo
+	pure := true
+	local := func(x ast.Expr) bool {
+		for {
+			switch y := unparen(x).(type) {
+			case *ast.Ident:
+				obj := info.Uses[y]
+				if obj == nil {
+					obj = info.Defs[y]
+				}
+				vr, ok := obj.(*types.Var)
+				return ok && !(vr.Pkg() != nil && vr.Parent() == vr.Pkg().Scope())
+			case *ast.SelectorExpr:
+				if t := info.TypeOf(y.X); t != nil {
+					if _, ptr := t.Underlying().(*types.Pointer); ptr {
+						return false
+					}
+				}
+				x = y.X
+			case *ast.IndexExpr:
+				if t := info.TypeOf(y.X); t != nil {
+					if _, arr := t.Underlying().(*types.Array); !arr {
+						return false
+					}
+				}
+				x = y.X
+			default:
+				return false
+			}
+		}
+	}
+	ast.Inspect(decl.Body, func(n ast.Node) bool {
+		switch x := n.(type) {
+		case *ast.AssignStmt:
+			for _, l := range x.Lhs {
+				if id, ok := l.(*ast.Ident); ok && id.Name == "_" {
+					continue
+				}
+				if !local(l) {
+					pure = false
+				}
+			}
+		case *ast.IncDecStmt:
+			if !local(x.X) {
+				pure = false
+			}
+		case *ast.GoStmt, *ast.SendStmt, *ast.SelectStmt, *ast.DeferStmt:
+			pure = false
+		case *ast.CallExpr:
+			if tv, ok := info.Types[x.Fun]; ok && tv.IsType() {
+				return true
+			}
+			if id, ok := unparen(x.Fun).(*ast.Ident); ok {
+				if b, ok := info.Uses[id].(*types.Builtin); ok {
+					switch b.Name() {
+					case "len", "cap", "min", "max", "panic", "new", "make", "append":
+					default:
+						pure = false
+					}
+					return true
+				}
+			}
+			var fn *types.Func
+			switch f := unparen(x.Fun).(type) {
+			case *ast.Ident:
+				fn, _ = info.Uses[f].(*types.Func)
+			case *ast.SelectorExpr:
+				if s, ok := info.Selections[f]; ok {
+					if s.Kind() == types.MethodVal {
+						fn, _ = s.Obj().(*types.Func)
+					}
+				} else {
+					fn, _ = info.Uses[f.Sel].(*types.Func)
+				}
+			}
+			if fn == nil {
+				pure = false
+				return true
+			}
+			cf := funcFullName(fn)
+			if fc, ok := e.cs.Funcs[cf]; ok {
+				if !fc.Pure && !fc.Inline {
+					pure = false
+				}
+				if fc.Inline && !e.declPure(cf, depth+1) {
+					pure = false
+				}
+			} else if m, ok := stdModels[cf]; ok {
+				if !m.pure {
+					pure = false
+				}
+			} else if !e.declPure(cf, depth+1) {
+				pure = false
+			}
+		}
+		return true
+	})
+	e.pureMemo[full] = pure
+	return pure
 }
 
 func (v *FnV) call(st *State, call *ast.CallExpr) []Value {
